@@ -109,6 +109,9 @@ def parse_with(text, sentinels, types, values):
     for found, v in zip(hits, values):
         for node in found:
             node.value = v
+            # Node.clone() re-creates a node from its constructor
+            # arguments (CONST values are cloned where they are used)
+            node._init_args = (v,) + tuple(node._init_args[1:])
             n += 1
     return tree, n
 
@@ -156,6 +159,16 @@ def compile_with(tmpl, cfg, values):
 def emit(res):
     """bytes(code) and str(code) of an accepted program.  Returns None or
     the exception."""
+    from crosshair.tracers import is_tracing
+    import qvm.debug_info as qdi
+    orig = qdi.DebugInfo.serialize
+    if is_tracing():
+        # pickle.dumps / gzip are C code and cannot take symbolic values:
+        # in symbolic runs the debug section serialiser returns a
+        # placeholder (the collector that builds the DebugInfo object still
+        # runs; real serialisation is exercised by the native small-value
+        # enumeration and by C09 / C11)
+        qdi.DebugInfo.serialize = lambda self: b'<debug-section>'
     try:
         b = res.code.__bytes__()
         s = res.code.__str__()
@@ -163,6 +176,8 @@ def emit(res):
             return ValueError('empty output')
     except Exception as e:  # noqa
         return e
+    finally:
+        qdi.DebugInfo.serialize = orig
     return None
 
 
